@@ -119,8 +119,28 @@ def algForKey : Cbor → Option Cbor
     | some (.uint 2), some (.uint 3) => some (.nint 35)   -- P-521  → ES512 (-36)
     | some (.uint 1), some (.uint 6) => some (.nint 7)    -- Ed25519 → EdDSA (-8)
     | some (.uint 1), some (.uint 7) => some (.nint 7)    -- Ed448   → EdDSA (-8)
+    | some (.uint 2), some (.uint 8) => some (.nint 46)   -- secp256k1 → ES256K (-47)
     | _, _ => none
   | _ => none
+
+/-- IANA COSE registries, by the variant names the crate uses: curve ↦ (kty, crv), algorithm ↦ n of `-1 - n` -/
+def curveIds : List (List Nat × Nat × Nat) :=
+  [("P256".toList.map (·.toNat), 2, 1), ("P384".toList.map (·.toNat), 2, 2), ("P521".toList.map (·.toNat), 2, 3),
+   ("P256K".toList.map (·.toNat), 2, 8), ("X25519".toList.map (·.toNat), 1, 4), ("X448".toList.map (·.toNat), 1, 5),
+   ("Ed25519".toList.map (·.toNat), 1, 6), ("Ed448".toList.map (·.toNat), 1, 7)]
+def algIds : List (List Nat × Nat) :=
+  [("ES256".toList.map (·.toNat), 6), ("ES384".toList.map (·.toNat), 34), ("ES512".toList.map (·.toNat), 35),
+   ("EdDSA".toList.map (·.toNat), 7), ("ES256K".toList.map (·.toNat), 46)]
+
+/-- a row (key type, curve, algorithm) of the crate's `signature_algorithm` table agrees with the registry -/
+def sigAlgRowOk (row : List Nat × List Nat × List Nat) : Bool :=
+  match curveIds.find? (·.1 == row.2.1), algIds.find? (·.1 == row.2.2) with
+  | some (_, kty, crv), some (_, a) =>
+    (row.1 == (if kty == 2 then "EC2".toList.map (·.toNat) else "OKP".toList.map (·.toNat))) &&
+    (match algForKey (.map [(.uint 1, .uint kty), (.nint 0, .uint crv)]) with
+     | some (.nint b) => a == b
+     | _ => false)
+  | _, _ => false
 
 /-! ### Device engagement (§8.2.1.1) -/
 
@@ -180,10 +200,22 @@ def sessionStatus : Cbor → Bool
   | .uint n => n == 10 || n == 11 || n == 20
   | _ => false
 
-/-- at least one of data / status; a status-only message carries no data -/
+/-- `data` is the output of AES-256-GCM: the encrypted message followed by the 16-byte tag -/
+def isCiphertext : Cbor → Bool
+  | .bytes b => 16 ≤ b.length
+  | _ => false
+
+/-- at least one of data / status; `data`, when present, is a ciphertext; a message whose status
+reports that the sender could not produce or read a message (10 session encryption error, 11 CBOR
+decoding error) is status-only: it carries no `data` member at all (20, session termination, may
+accompany data) -/
 def sessionData : Cbor → Bool
-  | .map m => onlyKeys [tx "data", tx "status"] m && opt (tx "data") isBytes m && opt (tx "status") sessionStatus m &&
-    ((get (tx "data") m).isSome || (get (tx "status") m).isSome)
+  | .map m => onlyKeys [tx "data", tx "status"] m && opt (tx "data") isCiphertext m && opt (tx "status") sessionStatus m &&
+    ((get (tx "data") m).isSome || (get (tx "status") m).isSome) &&
+    (match get (tx "status") m with
+     | some (.uint 10) => (get (tx "data") m).isNone
+     | some (.uint 11) => (get (tx "data") m).isNone
+     | _ => true)
   | _ => false
 
 /-! ### Device request (§8.3.2.1.2.1) -/
